@@ -19,4 +19,4 @@ CONSTANTS
   NarrowSels <- SubSels
   KeyFam <- Fam
 INVARIANTS Inv_C01 Inv_C03 Inv_C15 Inv_Clean EmitScenario
-CHECK_DEADLOCK FALSE
+CHECK_DEADLOCK TRUE
